@@ -161,6 +161,16 @@ impl PoolRun {
         }
     }
 
+    /// ReverseSimulation for `ask` units of the asset opposite to `dir`, and what the offer it names would buy
+    pub fn reverse_simulate(&self, dir: usize, ask: u128) -> Value {
+        match self.w.query::<white_whale_std::pool_network::pair::ReverseSimulationResponse, _>(
+            &self.pair, &QueryMsg::ReverseSimulation { ask_asset: self.assets[1 - dir].asset(ask) }) {
+            Ok(r) => { let fwd = self.simulate(dir, r.offer_amount.u128());
+                json!({"res": "ok", "ask": s(ask), "offer": s(r.offer_amount.u128()), "fwd": fwd["ret"], "fwd_res": fwd["res"]}) }
+            Err(_) => json!({"res": "rejected", "ask": s(ask), "offer": "0", "fwd": "0", "fwd_res": "rejected"}),
+        }
+    }
+
     /// `rev`: the caller lists the two assets in the reverse of the pair's own order (the same deposit)
     pub fn provide(&mut self, ui: usize, d: [u128; 2], recv: usize, slip: Option<u128>, rev: bool) -> (Res, String, String) {
         let u = self.user(ui);
@@ -487,7 +497,10 @@ pub fn run_random(rec: &mut Rec, seed: u64, run: u64, nops: usize, stable: bool)
                 ev.insert("actor".into(), json!(USERS[ui]));
                 ev.insert("args".into(), json!({"dir": dir + 1, "offer": s(offer), "to": USERS[to],
                     "ms": opt_s(ms), "bp": opt_s(belief), "wrong_path": wrong}));
-                ev.insert("pre".into(), json!({"sim": sim}));
+                // the reverse quote for what the forward quote promises
+                let ask: u128 = sim["ret"].as_str().and_then(|x| x.parse().ok()).unwrap_or(0);
+                let rsim = if ask > 0 { p.reverse_simulate(dir, ask) } else { json!({"res": "none", "ask": "0", "offer": "0", "fwd": "0", "fwd_res": "none"}) };
+                ev.insert("pre".into(), json!({"sim": sim, "rsim": rsim}));
                 ev.insert("res".into(), json!(rs.tag()));
                 ev.insert("err".into(), jerr(&rs.err()));
                 ev.insert("out".into(), json!({"ret": g("return_amount"), "spread": g("spread_amount"),
